@@ -173,7 +173,13 @@ where
         self.transform_controller.handle_token(&mut token)?;
 
         if self.emission_enabled {
-            token.into_bytes(&mut |c| self.output_sink.handle_chunk(c))?;
+            // NOTE: a zero-length chunk is the end-of-output marker, so an empty part of a
+            // serialized token (e.g. the text of an emptied comment) must not reach the sink.
+            token.into_bytes(&mut |c| {
+                if !c.is_empty() {
+                    self.output_sink.handle_chunk(c);
+                }
+            })?;
         }
         Ok(())
     }
@@ -199,7 +205,13 @@ where
         self.transform_controller.handle_token(&mut token)?;
 
         if self.emission_enabled {
-            token.into_bytes(&mut |c| self.output_sink.handle_chunk(c))?;
+            // NOTE: a zero-length chunk is the end-of-output marker, so an empty part of a
+            // serialized token (e.g. the text of an emptied comment) must not reach the sink.
+            token.into_bytes(&mut |c| {
+                if !c.is_empty() {
+                    self.output_sink.handle_chunk(c);
+                }
+            })?;
         }
         Ok(())
     }
